@@ -331,11 +331,12 @@ def main():
                 knownhits.append((r, hit[0]))
             else:
                 violations.append((r, msgs))
-        os.makedirs(os.path.join(VERIF, 'replays'), exist_ok=True)
+        OUT = os.environ.get('VERIF_OUT_DIR', VERIF)      # (self-test runs redirect evidence / replays; registered commands never set this)
+        os.makedirs(os.path.join(OUT, 'replays'), exist_ok=True)
         for (r, k) in knownhits:
             print('KNOWN-FINDING: property=%s %s' % (pid, k['text']))
         for (r, msgs) in violations:
-            rp = os.path.join(VERIF, 'replays', '%s-%s.json' % (pid, r))
+            rp = os.path.join(OUT, 'replays', '%s-%s.json' % (pid, r))
             replay = dict(property=pid, row=r, backend=mine[r]['kind'], contract=mine[r].get('text'), function=mine[r].get('fn'),
                           verifier_output=msgs[:5], tree=tree_hash(repo))
             suffix = ''
@@ -404,8 +405,9 @@ def write_evidence(pid, tier, seed, mine, myfailed, knownhits, violations, res, 
                               'outputs); the claim is below "proof" because: ' + (claims.CHECKS.get(pid, {}).get('text', '')))
     ev = dict(property_id=pid, tier=tier, seed=seed, level=lvl, coverage=cov,
               assumptions=table.assumptions(pid), wall_s=round(wall, 1), violations=len(violations))
-    os.makedirs(os.path.join(VERIF, 'evidence'), exist_ok=True)
-    json.dump(ev, open(os.path.join(VERIF, 'evidence', pid + '.json'), 'w'), indent=1)
+    OUT = os.environ.get('VERIF_OUT_DIR', VERIF)
+    os.makedirs(os.path.join(OUT, 'evidence'), exist_ok=True)
+    json.dump(ev, open(os.path.join(OUT, 'evidence', pid + '.json'), 'w'), indent=1)
 
 
 if __name__ == '__main__':
